@@ -56,8 +56,13 @@ Definition aset (k : key) (v : value) (m : amap) : amap := (k, v) :: adel k m.
 Inductive mkind :=
 | KPlain   (* anything the purge loop leaves alone *)
 | KFake    (* instance of FakeModule / FakeNumpyModule *)
-| KProj.   (* has a __file__ under the project's fake root and outside the interpreter prefix *)
+| KProj    (* has an ABSOLUTE __file__ under the project's fake root and outside the interpreter prefix *)
+| KRel.    (* project module loaded by a RELATIVE file path (spec_from_file_location("x", "pkg/_about.py") +
+              module_from_spec, imp.load_source("x", "./pkg/_legacy.py")): __file__ is that relative path *)
 Definition is_plain (k : mkind) : bool := match k with KPlain => true | _ => false end.
+(* what the purge loop keeps; rr = a relative __file__ is recognised as lying under the fake root *)
+Definition purge_keep (rr : bool) (k : mkind) : bool :=
+  match k with KPlain => true | KRel => negb rr | _ => false end.
 
 Definition mmap := list (string * mkind).
 Fixpoint mmem (n : string) (m : mmap) : bool :=
@@ -194,6 +199,7 @@ Definition read_aborts (p : program) : bool := negb read_in_try && is_unreadable
 Definition k_chdir : key := ("os", "chdir").
 Definition k_exit : key := ("os", "_exit").
 Definition k_abspath : key := ("os.path", "abspath").
+Definition k_getcwd : key := ("os", "getcwd").
 Definition k_cythonize : key := ("Cython.Build", "cythonize").
 Definition k_showwarning : key := ("warnings", "showwarning").
 Definition k_saved_showwarning : key := ("logging", "_warnings_showwarning").
@@ -363,6 +369,16 @@ Definition body (e : env) (p : program) (s : st) : st * outcome :=
   let s3 := run_ops e (eff_ops p) s2 in
   (s3, end_outcome e (snd p) s3).
 
+(* extractor.contains_path(module.__file__) for a relative __file__: recognised when contains_path
+   makes the path absolute with os.path.abspath (T1: contains_path_uses_abspath) and that is the
+   analyser's replacement resolving against the analyser's virtual working directory (os.getcwd
+   replaced too).  Other combinations are treated as "not recognised" (a non-callable os.getcwd would
+   raise in the middle of the loop: not modelled, not generated). *)
+Definition rel_recognised (e : env) (s : st) : bool :=
+  contains_path_uses_abspath
+  && opt_value_eqb (get k_abspath s) (fake_of outer_patched outer_base k_abspath)
+  && opt_value_eqb (get k_getcwd s) (fake_of outer_patched outer_base k_getcwd).
+
 Definition run_fstep (e : env) (tk : ptoks) (f : fstep) (s : st) : option st :=
   match f with
   | FCython => match t_old_cython tk with
@@ -392,9 +408,10 @@ Definition run_fstep (e : env) (tk : ptoks) (f : fstep) (s : st) : option st :=
          the analysis added); if os.path.abspath is no longer a working function the loop raises
          before it has removed anything *)
       let cur := get k_abspath s in
-      if opt_value_eqb cur (fake_of outer_patched outer_base k_abspath)
+      if negb contains_path_uses_abspath       (* contains_path does not call os.path.abspath at all *)
+         || opt_value_eqb cur (fake_of outer_patched outer_base k_abspath)
          || opt_value_eqb cur (e_real_abspath e)
-      then Some (with_mods (filter (fun m => is_plain (snd m)) (mods s)) s)
+      then Some (with_mods (filter (fun m => purge_keep (rel_recognised e s) (snd m)) (mods s)) s)
       else None
   end.
 
@@ -554,6 +571,48 @@ Definition run_fops (os : list fop) (tree : list string) : list string :=
   fold_left (fun t o => run_fop o t) os tree.
 Definition is_virtual (o : fop) : bool :=
   match o with FOpenWrite _ | FRename _ _ | FSymlink _ _ => true | _ => false end.
+
+(* ---------------------------------------------------------------- the egg-info fall-back *)
+
+(* _build_egg_info: extractor.extract(temp) makes a private copy of the project, then the setup script
+   is REALLY executed there by a child process.  For a source directory the copy is
+   shutil.copytree(...) (T1: scratch_copy_is_copy = no copy_function other than a copying one).
+   A file of the copy either has its own inode or - were the tree hard-linked - shares it with the
+   project's file; writing IN PLACE (open(f, "w"), "a", "r+") goes through the inode, unlink and
+   create do not. *)
+Inductive fbop :=
+| FbWrite (name : string) (c : N)     (* open(name, "w"/"a").write(..): in place when the file exists *)
+| FbReplace (name : string) (c : N)   (* os.unlink(name); create anew *)
+| FbRemove (name : string).           (* os.unlink(name) *)
+
+Definition ftree := list (string * N).                (* file -> content stamp *)
+Definition scratch := list (string * (N * bool)).     (* file -> content, shares the project's inode *)
+
+Fixpoint ft_get {V} (n : string) (t : list (string * V)) : option V :=
+  match t with [] => None | (n', v) :: r => if String.eqb n n' then Some v else ft_get n r end.
+Fixpoint ft_del {V} (n : string) (t : list (string * V)) : list (string * V) :=
+  match t with [] => [] | (n', v) :: r => if String.eqb n n' then ft_del n r else (n', v) :: ft_del n r end.
+Definition ft_set {V} (n : string) (v : V) (t : list (string * V)) := (n, v) :: ft_del n t.
+
+Definition extract_dir (is_copy : bool) (proj : ftree) : scratch :=
+  map (fun x => (fst x, (snd x, negb is_copy))) proj.
+
+Definition run_fbop (o : fbop) (st : ftree * scratch) : ftree * scratch :=
+  let '(proj, scr) := st in
+  match o with
+  | FbWrite n c =>
+      match ft_get n scr with
+      | Some (_, true) => (ft_set n c proj, ft_set n (c, true) scr)   (* same inode: the project's file changes *)
+      | Some (_, false) => (proj, ft_set n (c, false) scr)
+      | None => (proj, ft_set n (c, false) scr)
+      end
+  | FbReplace n c => (proj, ft_set n (c, false) scr)
+  | FbRemove n => (proj, ft_del n scr)
+  end.
+Definition fallback_project (is_copy : bool) (ops : list fbop) (proj : ftree) : ftree :=
+  fst (fold_left (fun a o => run_fbop o a) ops (proj, extract_dir is_copy proj)).
+Definition fallback_dir (ops : list fbop) (proj : ftree) : ftree :=
+  fallback_project scratch_copy_is_copy ops proj.
 
 (* ---------------------------------------------------------------- observations *)
 
